@@ -27,6 +27,7 @@ META = {
 
 def check(cfg, out, stats):
     make = maker(cfg)
+    make().translate()       # warm-up instance: no process-global state may leak into the next elaboration
     h = make()
     ts = h.translate()
     res = analyse(cfg, h, stats, out, "C08")
